@@ -297,7 +297,7 @@ def tree_check(ctx, props, focus, replay=None):
         'near': [22, 2, 18, 1, 1, 1, 1, 8, 40],
     }
     emphasis = {'C01': 'map', 'C02': 'shape', 'C03': 'walk', 'C04': 'near'}[focus]
-    nh = 150 if quick else 1000
+    nh = 150 if quick else 2500
     for i in range(nh):
         mixname = emphasis if i % 3 else rng.choice(list(mixes))
         kind = rng.choice(['small', 'small', 'str', 'bin', 'case'])
@@ -358,7 +358,7 @@ def tree_check(ctx, props, focus, replay=None):
         hists.append((['cmp ' + rng.choice(['byte', 'rev']), 'dump 0'], gen_history(rng, 2500 if quick else 12000, keys, mixes[emphasis][:7] + [0.2, 0.5])))
     nb = run_histories(ctx, exe, hists, 'random', focus)
     # bounded-exhaustive: every reachable shape over K keys, every put/remove from it
-    K = 8 if quick else 10
+    K = 8 if quick else 12
     hdr, bh, nstates = bfs_shapes(ctx, K)
     nb += run_histories(ctx, exe, [(hdr + h, p) for h, p in bh], 'exhaustive', focus)
     # hidden shared state inside the library (e.g. file-scope statics) would let one table's operation disturb another's:
